@@ -37,8 +37,8 @@ ASSUMPTIONS = [
 
 SECRET_IDS = {'psk', 'skeyseed', 'keymat', 'keypad', 'shared_secret', 'sk_d', 'sk_ai', 'sk_ar', 'sk_ei', 'sk_er', 'sk_pi', 'sk_pr',
               'sk_e', 'sk_a', 'sk_p', 'old_sk_d', '_private_key', 'privkey', 'cookie_secret', 'ike_sa_keyring', 'child_sa_keyring',
-              'keyring'}
-SECRET_CONTAINERS = {'my_auth', 'peer_auth'}
+              'keyring', 'ike_conf', 'ikeconf'}
+SECRET_CONTAINERS = {'my_auth', 'peer_auth', 'configuration'}   # records whose repr() shows credentials
 SECRET_IDS_BY_MODULE = {'crypto': {'key'}, 'xfrm': {'key'}, 'configuration': {'conf_dict', 'ikeconfdict'}, 'pyikev2': {'conf_dict'}}
 SECRET_KEYS = {'psk', 'privkey', 'my_auth', 'peer_auth'}     # keys of the configuration mapping that hold credentials
 SANITISERS = {'len', 'prf', 'prfplus', 'compute', 'HMAC', 'digest', 'sign', 'verify', 'encrypt', 'decrypt', 'int', 'bool', 'isinstance',
@@ -120,8 +120,9 @@ class Secrets:
                 if hit:
                     return 'result of %s, which returns key material' % hit[0].qual
                 return None
-            if r is not None and r.kind == 'ctor' and r.cls is not None:
-                return None      # repository objects do not render their fields
+            if r is not None and r.kind == 'ctor' and r.cls is not None and not any(
+                    'Structure' in b for b in r.cls.all_ext_bases()):
+                return None      # repository objects do not render their fields (ctypes structures do: bytes(obj))
             for a in list(e.args) + [k.value for k in e.keywords]:
                 w = self.why(fi, a, depth + 1)
                 if w:
@@ -170,6 +171,8 @@ class Secrets:
                             for x in ast.walk(tg):
                                 if isinstance(x, ast.Name) and isinstance(x.ctx, ast.Store):
                                     t.add(x.id)
+                            if isinstance(tg, ast.Subscript) and isinstance(tg.value, ast.Name):
+                                t.add(tg.value.id)      # container[...] = secret taints the container
                     elif isinstance(n, ast.AugAssign) and isinstance(n.target, ast.Name) and self.why(fi, n.value):
                         t.add(n.target.id)
                     elif isinstance(n, (ast.For, ast.comprehension)) and self.why(fi, n.iter):
@@ -382,7 +385,7 @@ def run(ctx):
                 idents.add(x.attr)
             elif isinstance(x, ast.arg):
                 idents.add(x.arg)
-    missing = sorted(SECRET_IDS - idents - {'keyring'})
+    missing = sorted(SECRET_IDS - idents - {'keyring', 'ike_conf', 'ikeconf'})
     ctx.require(not missing, 'anchor vanished: secret identifiers no longer present in the tree: %s (extend SECRET_IDS with their '
                 'new names)' % missing)
     ctx.require(positive_control(ctx), 'positive control failed: the taint rules do not report the leaking fixture')
